@@ -104,6 +104,9 @@ def run(F, cfg, inp):
             else:
                 ts, tn, tf = cfg['t']
                 t = F.Fxp(None, ts, tn, tf, rounding=cfg['rounding2'], overflow=cfg['overflow'])      # a third combination of modes
+                if cfg['target'] == 'out_like':
+                    # a template that raised flags in its own past: the result is a new object and reports this operation only
+                    t.status['overflow'] = t.status['underflow'] = True
                 fn = getattr(F.pkg, cfg['op'])
                 if cfg['target'] == 'out':
                     z = fn(x, y, out=t, sizing=cfg['sizing'], method=method)
